@@ -20,7 +20,7 @@ import (
 
 func c16Stream(t *rapid.T, label string) *streamModel {
 	o := defaultStreamOpts()
-	o.smallPSI, o.maxPESLen, o.maxUnits, o.zeroPayload, o.hugePES = true, 900, 3, true, true
+	o.smallPSI, o.maxPESLen, o.maxUnits, o.zeroPayload, o.hugePES, o.teiNoise = true, 900, 3, true, true, true
 	_ = label
 	return drawStream(t, o)
 }
